@@ -287,9 +287,12 @@ class Box { public $v = "";
   function get() { return $this->v; }
   function set($x) { $this->v = $x; return $this; }
   static function make($x) { $b = new Box(); $b->v = $x; return $b; } }
+class Scaler { public $f = "";
+  function run($x) { $g = fn($v) => $v . $this->f; $h = function($v) { return $v . $this->f; }; return $g($x) . $h($x); } }
 function helper($x) { return $x . ""; }
 function handler($r, $w) {
   $q = $r->query(); $a = $q->x;
+  $sc = new Scaler(); $sc->f = $a;
   $o = Box::make($a);
   $p = new Box(); $p->set($a);
   $f = function($z) use ($a) { return $z . $a; };
@@ -297,7 +300,7 @@ function handler($r, $w) {
   foreach ([$o, $p] as $it) { $s .= $it->get(); }
   $t = helper($a);
   $u = "{$a}";
-  $w->write($s . $f("") . $t . $u . ($a == "1" ? "y" : "n"));
+  $w->write($s . $f("") . $t . $u . $sc->run("") . ($a == "1" ? "y" : "n"));
 }
 `
 
@@ -331,7 +334,7 @@ func H_two_constructs() {
 	wg.Wait()
 	for t := 0; t < 2; t++ {
 		symx.Observe("body", t, string(recs[t].body))
-		symx.Assert(string(recs[t].body) == qs[t]+qs[t]+qs[t]+qs[t]+qs[t]+tail[t], "response body equals what the handler yields for this request alone")
+		symx.Assert(string(recs[t].body) == qs[t]+qs[t]+qs[t]+qs[t]+qs[t]+qs[t]+qs[t]+tail[t], "response body equals what the handler yields for this request alone")
 	}
 	symx.Reach("end")
 }
